@@ -26,6 +26,7 @@ pub enum Score {
     Hash64,
     ConstMax,
     MaskMax,
+    BaseHash,
 }
 impl Score {
     fn name(&self) -> &'static str {
@@ -42,11 +43,20 @@ impl Score {
             Score::Hash64 => "hash64",
             Score::ConstMax => "const-usize-max",
             Score::MaskMax => "homopolymer-masked-usize-max",
+            Score::BaseHash => "hash-of-bases",
         }
     }
     fn eval<P: Kmer>(&self, x: &P) -> usize {
-        let n = 1usize << (2 * P::k());
+        // wide p-mer types (K > 8 here) only get scores that need neither a rank nor a table of 4^p entries
+        let n = if P::k() <= 8 { 1usize << (2 * P::k()) } else { 0 };
         match self {
+            Score::BaseHash => {
+                let mut z: u64 = 0xcbf29ce484222325;
+                for i in 0..P::k() {
+                    z = (z ^ (x.get(i) as u64 + 1)).wrapping_mul(0x100000001b3);
+                }
+                (z >> 7) as usize
+            }
             Score::Rank => x.to_u64() as usize,
             Score::RevRank => n - 1 - x.to_u64() as usize,
             Score::Constant => 7,
@@ -74,6 +84,15 @@ impl Score {
 }
 
 fn gen_score(r: &mut Rng, p: usize) -> Score {
+    if p > 8 {
+        return match r.below(6) {
+            0 => Score::Constant,
+            1 => Score::AtCount,
+            2 => Score::Binary,
+            3 => Score::ConstMax,
+            _ => Score::BaseHash,
+        };
+    }
     let n = 1usize << (2 * p);
     match r.below(13) {
         9 => Score::Shifted,
@@ -113,13 +132,14 @@ fn scan_with<P: Kmer, V: Vmer>(v: &V, k: usize, score: &Score) -> Vec<Value> {
     scanner
         .scan()
         .iter()
-        .map(|i| json!({"start": i.start, "len": i.len, "mpos": i.minimizer_pos, "min": mer_bases(&i.minimizer), "bucket": i.bucket()}))
+        // (the bucket id is the p-mer's rank: only logged where it fits the oracle's 32-bit integers)
+        .map(|i| json!({"start": i.start, "len": i.len, "mpos": i.minimizer_pos, "min": mer_bases(&i.minimizer), "bucket": if P::k() <= 8 { i.bucket() } else { 0 }}))
         .collect()
 }
 
 fn scan_event<P: Kmer>(sink: &Sink, r: &mut Rng) {
     let p = P::k();
-    let k = if r.chance(1, 6) { p } else { r.range(p, std::cmp::min(p + 20, 40)) };
+    let k = if r.chance(1, 6) { p } else { r.range(p, if p >= 20 { p + 12 } else { std::cmp::min(p + 20, 40) }) };
     let alphas: [&[u8]; 5] = [&[0], &[0, 3], &[1, 2], &[0, 1, 3], &[0, 1, 2, 3]];
     let alpha = *r.pick(&alphas);
     let len = if r.chance(1, 5) { k } else { r.range(k, k + 60) };
@@ -558,6 +578,13 @@ macro_rules! p_types {
             2 => $f::<Kmer4>($($args),*),
             3 => $f::<Kmer5>($($args),*),
             4 => $f::<Kmer6>($($args),*),
+            5 => $f::<Kmer8>($($args),*),
+            // wide p-mers (scan only): a p-mer may span two or three storage words of the read
+            6 => $f::<Kmer20>($($args),*),
+            7 => $f::<Kmer32>($($args),*),
+            8 => $f::<Kmer40>($($args),*),
+            9 => $f::<Kmer48>($($args),*),
+            10 => $f::<Kmer64>($($args),*),
             _ => $f::<Kmer8>($($args),*),
         }
     }};
@@ -572,7 +599,7 @@ pub fn record(sink: &Sink, args: &Args) {
     let has = |s: &str| ev.is_empty() || ev.iter().any(|x| x == s);
     if has("scan") {
         for _ in 0..n {
-            let sel = r.below(6);
+            let sel = if r.chance(1, 5) { r.range(6, 10) } else { r.below(6) };
             p_types!(sel, scan_event(sink, &mut r));
         }
     }
